@@ -97,6 +97,9 @@ fn sites() -> Vec<Site> {
         Site { name: "vanilla world-login seed (ProofSeed::new)", width: 4, direct: true, call: Box::new(|s| measured(s, || wow_srp::vanilla_header::ProofSeed::new(), |p| p.seed().to_le_bytes().to_vec())) },
         Site { name: "tbc world-login seed (ProofSeed::new)", width: 4, direct: true, call: Box::new(|s| measured(s, || wow_srp::tbc_header::ProofSeed::new(), |p| p.seed().to_le_bytes().to_vec())) },
         Site { name: "wrath world-login seed (ProofSeed::new)", width: 4, direct: true, call: Box::new(|s| measured(s, || wow_srp::wrath_header::ProofSeed::new(), |p| p.seed().to_le_bytes().to_vec())) },
+        Site { name: "vanilla world-login seed (ProofSeed::default)", width: 4, direct: true, call: Box::new(|s| measured(s, || <wow_srp::vanilla_header::ProofSeed as Default>::default(), |p| p.seed().to_le_bytes().to_vec())) },
+        Site { name: "tbc world-login seed (ProofSeed::default)", width: 4, direct: true, call: Box::new(|s| measured(s, || <wow_srp::tbc_header::ProofSeed as Default>::default(), |p| p.seed().to_le_bytes().to_vec())) },
+        Site { name: "wrath world-login seed (ProofSeed::default)", width: 4, direct: true, call: Box::new(|s| measured(s, || <wow_srp::wrath_header::ProofSeed as Default>::default(), |p| p.seed().to_le_bytes().to_vec())) },
         Site { name: "integrity salt (get_salt_value)", width: 16, direct: true, call: Box::new(|s| measured(s, wow_srp::integrity::get_salt_value, |v| v.to_vec())) },
         Site { name: "PIN salt (get_pin_salt)", width: 16, direct: true, call: Box::new(|s| measured(s, wow_srp::pin::get_pin_salt, |v| v.to_vec())) },
         Site { name: "PIN grid seed (get_pin_grid_seed)", width: 4, direct: true, call: Box::new(|s| measured(s, wow_srp::pin::get_pin_grid_seed, |v| v.to_le_bytes().to_vec())) },
